@@ -28,6 +28,7 @@ def run(c):
     batches, dropped = bc.build_all(c, items, emitter)
     counts = {"calls": 0, "with-heap-blocks": 0, "host-blocks": 0, "result-blocks": 0, "post-returns": 0, "classes": {}}
     reqs, impl, model = [], [], []
+    creqs, cimpl, cmodel = [], [], []
     for batch, gmap in batches:
         def on_outcome(m, o, batch=batch, gmap=gmap):
             if m is None:
@@ -47,6 +48,9 @@ def run(c):
             if corr is not None:
                 counts["post-returns"] += 1
                 reqs.append(req); impl.append(str(corr[0])); model.append(str(corr[1]))
+            lc = bc.ledger_counts(o) if m["dir"] == "export" else None
+            if lc is not None:
+                creqs.append(req); cimpl.append(json.dumps(lc[0], sort_keys=True)); cmodel.append(json.dumps(lc[1], sort_keys=True))
             wit, cfg = items[gmap[m["item"]]][1], items[gmap[m["item"]]][0]
             for cls, what, detail in fs:
                 counts["classes"][cls] = counts["classes"].get(cls, 0) + 1
@@ -57,6 +61,7 @@ def run(c):
                           "result_blocks": bc.nz(o.get("result_blocks", []))[:6]})
         bc.run_calls(c, batch, host, c.rng, per_fn, on_outcome)
     c.compare("post-return-frees", reqs, impl, model, nontrivial=lambda r, o: o != "[]")
+    c.compare("ledger-event-counts", creqs, cimpl, cmodel, nontrivial=lambda r, o: '"galloc": 0' not in o)
     c.cov["worlds"] = {"generated": len(items), "corpus": len(corpus), "compiled": sum(len(g) for _, g in batches),
                        "dropped_not_compiling": len(dropped)}
     c.cov["type_constructors_generated"] = stats
